@@ -222,7 +222,9 @@ def dispatch_oracle(ix: Index, scn: dict) -> list[Violation]:
     closed = min(ix.closed_seq.values()) if ix.closed_seq else None
     # the device side went away by itself (FIN/RST injected there) before the client closed: a reply may be lost on the way
     dev_ended = any(ev[3] == "dev_conn_end" and (closed is None or ev[0] < closed) for ev in ix.h)
-    must = [e for e in expected_replies if closed is None or e[2] < closed]
+    # (from the moment the transport refuses every write, an answer cannot reach the wire: the close that must follow is judged below)
+    refusing = min([ev[0] for ev in ix.h if ev[3] == "write_raises_armed"] + [float("inf")])
+    must = [e for e in expected_replies if (closed is None or e[2] < closed) and e[2] < refusing]
     for i, (name, val, seq) in enumerate(must):
         if i >= len(seen):
             if dev_ended and closed is not None:
@@ -352,12 +354,16 @@ def gen_dispatch(rng: random.Random) -> dict:
     r = rng.random()
     if r < 0.25:
         # an undecodable payload of a known type ends the session
-        name = pick(rng, SUB_TYPES)
+        # (any defined type, those without fields and those the library answers itself included)
+        name = pick(rng, SUB_TYPES) if rng.random() < 0.5 else pick(rng, sorted(_table().by_name))
         mid = _table().by_name[name]
         bad = pick(rng, ["0aff01", "ffffffff", "0a05616263", "08"])
         events.append({"at": {"t": 7.0}, "do": "dev", "act": {"msgs": [{"type": mid, "payload_hex": bad, "name": "#maybe_bad"}], "latency": 0.0}})
     elif r < 0.45:
         events.append({"at": {"t": 7.0}, "do": "dev", "act": {"msgs": [["DisconnectRequest", {}]], "latency": 0.0}})
+        if rng.random() < 0.2:
+            # the transport refuses the answer (its peer is gone already): the session is over all the same
+            events.append({"at": {"t": 6.9}, "do": "fault", "kind": "write_raises", "always": True, "exc": pick(rng, ["OSError", "RuntimeError"])})
     if rng.random() < 0.15:
         # simultaneous disconnect: the device's own DisconnectRequest arrives while the client's disconnect() is
         # still waiting for its DisconnectResponse (which the device delays or never sends)
